@@ -60,22 +60,46 @@ def _p(pid, level, expl, assume, extra=None):
     PROPS[pid] = d
 
 
-_p("C01", "exploration",
-   "Cluster-level statement (identical hand-outs everywhere, forever) is EXPLORED: monitors compare every committed-entry hand-out and every "
-   "commit-time prefix across all nodes and incarnations on every generated schedule. Proved node-locally (Props/C01.v): what a node hands out "
-   "is the consecutive run of its log after the applying cursor within commit; commit moves forward only.",
-   ["crash model of the main stream: the persistent writes of one Ready / one MsgStorageAppend are atomic (CrashAtomic)"])
+_p("C01", "proof",
+   "PROVED at protocol level (Props/C01.v over Spec/Safety.v, theorem C01_state_machine_safety_protocol): in every execution of any network of "
+   "nodes that follow the election/replication/commit rules the node model implements (unbounded nodes, terms, log lengths and steps; messages "
+   "delayed, duplicated, reordered, lost; static voter set), any two hand-outs at the same position by any nodes at any moments carry the same "
+   "entry, and what a node may treat as committed is never replaced or dropped (C01_committed_never_replaced). PROVED node-locally on the "
+   "extracted model: what a node hands out is the consecutive run of its log after the applying cursor within commit; commit moves forward only. "
+   "PARTIAL: that the node model follows the protocol rules is shown rule by rule (Props C02/C04/C05/C06 local theorems), not as one refinement "
+   "theorem; membership change, snapshots/compaction and crash loss of unacknowledged suffixes are outside the protocol theorem and are EXPLORED: "
+   "monitors compare every committed-entry hand-out and every commit-time prefix across all nodes and incarnations on every generated schedule.",
+   ["crash model of the main stream: the persistent writes of one Ready / one MsgStorageAppend are atomic (CrashAtomic)",
+    "protocol theorem: static voter set, no snapshots, acknowledged log prefixes are durable"],
+   {"technique": "Coq: protocol-level State Machine Safety (invariant with history variables, Spec/Safety.v) + node-local lemmas on the extracted "
+                 "model; lockstep tie model<->code; cluster exploration with cross-node hand-out monitors for what the protocol theorem leaves out"})
 _p("C02", "proof",
    "Proved for every state and message (Props/C02.v): one vote per term across the incarnation and restart from the durable vote (hs_le), a vote is "
    "granted only if canVote holds and the candidate's log is up to date, a candidate becomes leader only when the tally over the joint "
-   "configuration (C12) is VoteWon. The cluster-level composition (at most one leader per term) is checked by monitors on every schedule, not proved.",
+   "configuration (C12) is VoteWon. Election Safety itself is proved at protocol level (C02_election_safety, C02_election_safety_joint over "
+   "Spec/Election.v: vote uniqueness + majority intersection, also for joint configurations); the composition with restarts under asynchronous "
+   "storage is checked by monitors on every schedule.",
    ["wf_msg: leader messages carry a non-zero term", "known finding F5 (async storage: leadership before the own vote is durable) is classified separately"])
-_p("C03", "exploration",
-   "Cross-node log matching is EXPLORED: monitors compare all pairs of logical logs (storage + unstable) after every step. Proved node-locally "
-   "(Props/C03.v): every log keeps consecutive indexes under overwrite-from-index; the leader stamps its term at lastIndex+1...", [])
-_p("C04", "exploration",
-   "Leader completeness is EXPLORED: at every leadership change the monitor compares the new leader's log with every entry known committed. "
-   "Proved node-locally (Props/C04.v): votes only for up-to-date logs; commit only of own-term entries at the quorum index.", [])
+_p("C03", "proof",
+   "PROVED at protocol level (Props/C03.v over Spec/LogMatching.v, theorem C03_log_matching_protocol): for every reachable state of any network "
+   "whose logs evolve by the replication rules of the node model (one leadership per term, leader appends entries of its term, followers accept "
+   "any slice of a leadership's log on a (prev index, prev term) match and truncate only at the first mismatch, a crash may lose any suffix), two "
+   "logs holding an entry of the same term at the same position are identical up to it. PROVED node-locally: every log keeps consecutive indexes "
+   "under overwrite-from-index; the leader stamps its term at lastIndex+1...; only matching (index, term) acknowledgements release unstable "
+   "entries (C18). PARTIAL: the node model following the protocol rules is shown rule by rule; snapshots/compaction are outside the protocol "
+   "theorem and EXPLORED: monitors compare all pairs of logical logs (storage + unstable) after every step.", [],
+   {"technique": "Coq: protocol-level Log Matching (ghost leadership logs, Spec/LogMatching.v) + node-local lemmas; lockstep tie; pairwise "
+                 "log-matching monitor"})
+_p("C04", "proof",
+   "PROVED at protocol level (Props/C04.v over Spec/Safety.v): in every reachable state, a candidate holding a majority of votes of term t (the "
+   "moment it becomes leader) already agrees through position i with every earlier leadership that committed position i "
+   "(C04_new_leader_holds_committed), every later leadership keeps the entry (C04_leader_completeness_protocol), and no step removes it from a "
+   "follower that held it (C04_followers_keep_committed). PROVED node-locally: votes only for up-to-date logs; commit only of own-term entries at "
+   "the quorum index. PARTIAL: static voter set, no snapshots in the protocol theorem; joint configurations, learners promoted unknowingly, "
+   "restarts and snapshot-covered entries are EXPLORED: at every leadership change the monitor compares the new leader's log with every entry "
+   "known committed.", ["protocol theorem: static voter set, no snapshots, acknowledged log prefixes are durable"],
+   {"technique": "Coq: protocol-level Leader Completeness (quorum intersection of commit and election majorities, Spec/Safety.v) + node-local "
+                 "lemmas (up-to-date vote, own-term quorum commit); lockstep tie; leader-completeness monitor"})
 _p("C05", "proof",
    "Proved for every function of the node and every input (Props/C05.v, Proofs/RaftRouting.v): MsgAppResp / MsgVoteResp / MsgPreVoteResp are only "
    "ever appended to msgsAfterAppend, never to the immediately sendable queue; the static configuration is untouched; restart state is a function "
